@@ -86,6 +86,7 @@ class WorldC11(World):
         'C11-reaction-notes': 'a Reaction / ChemkinReaction / SurfaceReaction is built with notes other than None',
         'C11-class-LSR': 'an LSR object is built (from numbers)',
     }
+    PROBE_TRIGGER = {'class-LSR': 'C11-class-LSR'}
     MAX_STEPS = 40
 
     # ------------------------------------------------------------------ gen
